@@ -215,6 +215,14 @@ func NewLW(s *Server, cfg LWCfg) (*LW, error) {
 				lw.sock = filepath.Join(dir, base+strings.Repeat("x", pad)+".sock")
 			}
 		}
+		if seq%3 == 0 {
+			// every third socket lives in a directory whose name has a colon (an instance label such as worker:1):
+			// an absolute path is a unix socket whatever else it contains
+			cdir := filepath.Join(dir, fmt.Sprintf("w:%d", seq%7))
+			if os.MkdirAll(cdir, 0o755) == nil {
+				lw.sock = filepath.Join(cdir, fmt.Sprintf("s-%d-%d.sock", os.Getpid(), seq))
+			}
+		}
 		_ = os.Remove(lw.sock)
 		base, err = net.Listen("unix", lw.sock)
 		lw.Addr = lw.sock
